@@ -294,3 +294,6 @@ def run(P, R, tier):
         if P.func(k_, required=False) is not None:
             n_opt += _opt.check_function(P, R, k_)
     R.floor("OPT optional-factor selections", n_opt, 6)
+
+
+EXPLANATION += ' Also: (ACC.sum) accumulators are summed over classes / sessions; (POL.acc-placement) every factor of A1 / A2 multiplies; (OPT); (IDX.class-select); (COVER.reduce_iadd / COVER.pairs) per-class accumulators are folded whole; (DTYPE.raw).'
